@@ -540,14 +540,14 @@ Section Final.
   Variables tmo abt : option N.
   Variable ops : list top.
 
-  Notation logs := (snd (trun eager sync reqs tmo abt (tst0 tmo) ops)).
-  Notation final := (t_st (fst (trun eager sync reqs tmo abt (tst0 tmo) ops))).
+  Notation logs := (snd (srun eager sync reqs tmo abt (sst0 tmo) ops)).
+  Notation final := (t_st (k_t (fst (srun eager sync reqs tmo abt (sst0 tmo) ops)))).
 
   Lemma flat_accepted : exists m, mon_run mon0 (concat logs) = Some m.
-  Proof. destruct (trun_sim eager sync reqs tmo abt ops (tst0 tmo) mon0 R0) as (m & H & _). exists m. apply mon_ops_flat, H. Qed.
+  Proof. destruct (srun_sim eager sync reqs tmo abt ops (sst0 tmo) mon0 R0) as (m & H & _). exists m. apply mon_ops_flat, H. Qed.
 
   Lemma final_accepted : mon_ops mon0 logs <> None.
-  Proof. destruct (trun_sim eager sync reqs tmo abt ops (tst0 tmo) mon0 R0) as (m & H & _). rewrite H. discriminate. Qed.
+  Proof. destruct (srun_sim eager sync reqs tmo abt ops (sst0 tmo) mon0 R0) as (m & H & _). rewrite H. discriminate. Qed.
 
   Lemma final_one_open A B : concat logs = A ++ B ->
     forall i i', In (EProcess i) A -> ~ In (EEnd i) A -> In (EProcess i') A -> ~ In (EEnd i') A -> i = i'.
@@ -572,7 +572,7 @@ Section Final.
     (forall k i d, let A := concat (firstn k logs) in
        In (ENotify i d) A -> In (EEnd i) A \/ In (ELost i) A -> count_fired A i d = 1).
   Proof.
-    destruct flat_accepted as [m H]. destruct (trun_sim eager sync reqs tmo abt ops (tst0 tmo) mon0 R0) as (m' & H' & _).
+    destruct flat_accepted as [m H]. destruct (srun_sim eager sync reqs tmo abt ops (sst0 tmo) mon0 R0) as (m' & H' & _).
     split; [|split].
     - intros A B i d E. eapply fires_at_most_once; eauto.
     - intros A i d ok B E. eapply fired_justified; eauto.
@@ -581,9 +581,16 @@ Section Final.
 
   Lemma final_reading : s_handling final = false -> s_waiting final = false -> net_paused false (concat logs) = false.
   Proof.
-    destruct (trun_sim eager sync reqs tmo abt ops (tst0 tmo) mon0 R0) as (m & H & HR). intros Hh Hw.
+    destruct (srun_sim eager sync reqs tmo abt ops (sst0 tmo) mon0 R0) as (m & H & HR). intros Hh Hw.
     pose proof (paused_run _ mon0 m (mon_ops_flat _ _ _ H)) as P. cbn [m_paused mon0] in P. rewrite <- P.
     destruct HR as (_ & _ & _ & _ & _ & G & _). exact (G Hh Hw).
+  Qed.
+
+  (** connectionLost has been delivered exactly when EGone is in the log *)
+  Lemma final_lost : s_lost final = true <-> In EGone (concat logs).
+  Proof.
+    destruct (srun_sim eager sync reqs tmo abt ops (sst0 tmo) mon0 R0) as (m & H & HR).
+    destruct HR as (_ & _ & _ & _ & _ & _ & _ & _ & L). rewrite <- L. apply gone_run, mon_ops_flat, H.
   Qed.
 End Final.
 
